@@ -65,6 +65,16 @@ pub fn generate(seed: u64) -> CheckSpec {
             files.push((format!("lib/l{i}.lua"), "lib".to_string(), 1000 + i as u32));
         }
     }
+    // a third of the cases: a second workspace root on the command line, holding files at the same
+    // workspace-relative paths as the first one (with other diagnostics)
+    if r.chance(1, 3) {
+        let firsts: Vec<String> = files.iter().filter(|f| !f.0.starts_with("lib/")).map(|f| f.0.clone()).collect();
+        for i in 0..r.range(1, 4) as usize {
+            let rel = if i < firsts.len() && r.chance(3, 4) { firsts[i].clone() } else { format!("only2/x{i}.lua") };
+            let kind = *r.pick(&["clean", "unused", "undefined", "syntax", "mismatch", "mixed"]);
+            files.push((format!("ws2/{rel}"), kind.to_string(), 2000 + i as u32));
+        }
+    }
     CheckSpec {
         seed,
         files,
@@ -97,7 +107,7 @@ fn severity_filter(s: &Option<String>) -> Option<emmylua_check::DiagnosticSeveri
 
 /// Sequential reference: the same loading steps as `emmylua_check::init::load_workspace`, then
 /// `diagnose_file` file by file.
-fn reference(ws: &Path, spec: &CheckSpec) -> (bool, BTreeMap<String, Vec<lsp_types::Diagnostic>>) {
+fn reference(ws: &Path, roots: &[PathBuf], spec: &CheckSpec) -> (bool, BTreeMap<String, Vec<lsp_types::Diagnostic>>) {
     use emmylua_code_analysis::{EmmyLuaAnalysis, WorkspaceFolder, build_workspace_folders, collect_workspace_files, load_configs};
     let cfgs: Vec<PathBuf> = [".luarc.json", ".emmyrc.json", ".emmyrc.lua"].iter().map(|f| ws.join(f)).filter(|p| p.exists()).collect();
     let mut emmyrc = load_configs(cfgs, None);
@@ -105,7 +115,8 @@ fn reference(ws: &Path, spec: &CheckSpec) -> (bool, BTreeMap<String, Vec<lsp_typ
     let mut analysis = EmmyLuaAnalysis::new();
     analysis.update_config(Arc::new(emmyrc));
     analysis.init_std_lib(None);
-    let folders = build_workspace_folders(&[WorkspaceFolder::new(ws.to_path_buf(), false)], &analysis.emmyrc);
+    let cmd_folders: Vec<WorkspaceFolder> = roots.iter().map(|r| WorkspaceFolder::new(r.clone(), false)).collect();
+    let folders = build_workspace_folders(&cmd_folders, &analysis.emmyrc);
     for w in &folders {
         if w.is_library {
             analysis.add_library_workspace(w);
@@ -152,7 +163,13 @@ fn run_case(spec: &CheckSpec, verbose: bool) -> CaseReport {
     let ws = dir.0.join("ws");
     let has_lib = spec.files.iter().any(|f| f.0.starts_with("lib/"));
     for (rel, kind, n) in &spec.files {
-        let p = if let Some(rest) = rel.strip_prefix("lib/") { dir.0.join("lib").join(rest) } else { ws.join(rel) };
+        let p = if let Some(rest) = rel.strip_prefix("lib/") {
+            dir.0.join("lib").join(rest)
+        } else if let Some(rest) = rel.strip_prefix("ws2/") {
+            dir.0.join("ws2").join(rest)
+        } else {
+            ws.join(rel)
+        };
         if let Some(parent) = p.parent() {
             let _ = std::fs::create_dir_all(parent);
         }
@@ -162,6 +179,10 @@ fn run_case(spec: &CheckSpec, verbose: bool) -> CaseReport {
     if has_lib {
         std::fs::write(ws.join(".emmyrc.json"), json!({"workspace": {"library": [dir.0.join("lib").to_string_lossy()]}}).to_string()).expect("emmyrc");
     }
+    let mut roots: Vec<PathBuf> = vec![ws.clone()];
+    if spec.files.iter().any(|f| f.0.starts_with("ws2/")) {
+        roots.push(dir.0.join("ws2"));
+    }
     let report_path = dir.0.join(format!("report.{}", spec.format));
     let (fmt, dest) = match spec.format.as_str() {
         "json" => (emmylua_check::OutputFormat::Json, emmylua_check::OutputDestination::File(report_path.clone())),
@@ -170,7 +191,7 @@ fn run_case(spec: &CheckSpec, verbose: bool) -> CaseReport {
     };
     let args = emmylua_check::CmdArgs {
         config: None,
-        workspace: vec![ws.clone()],
+        workspace: roots.clone(),
         ignore: None,
         output_format: fmt,
         output: dest,
@@ -184,7 +205,8 @@ fn run_case(spec: &CheckSpec, verbose: bool) -> CaseReport {
     tokio::verif_seam::install(Box::new(SimController(shared.clone())));
     let rt = tokio::runtime::Builder::new_current_thread().enable_time().start_paused(true).event_interval(spec.sched.event_interval.max(1)).build().expect("rt");
     // text output goes to fd 1: park it on /dev/null for the duration of the call
-    let saved = if spec.format == "text" { Some(redirect_stdout()) } else { None };
+    let text_path = dir.0.join("report.txt");
+    let saved = if spec.format == "text" { Some(redirect_stdout(&text_path)) } else { None };
     // run_check's future is not Send (it owns a Box<dyn OutputWriter>): it is the root future of
     // block_on; the diagnose tasks it spawns are ordinary tasks under the seeded scheduler
     let result = rt.block_on(async move {
@@ -204,11 +226,14 @@ fn run_case(spec: &CheckSpec, verbose: bool) -> CaseReport {
     };
 
     // ---- reference
-    let (want_error, want) = reference(&ws, spec);
+    let (want_error, want) = reference(&ws, &roots, spec);
     let mut violations: Vec<(String, String)> = Vec::new();
     let mut counters: BTreeMap<String, u64> = BTreeMap::new();
     counters.insert(format!("format.{}", spec.format), 1);
     counters.insert("files".into(), spec.files.len() as u64);
+    if roots.len() > 1 {
+        counters.insert("probe.two_workspace_roots".into(), 1);
+    }
     if spec.files.len() > 100 {
         counters.insert("probe.more_files_than_channel_capacity".into(), 1);
     }
@@ -264,6 +289,77 @@ fn run_case(spec: &CheckSpec, verbose: bool) -> CaseReport {
                 }
             }
             _ => violations.push(("C36:report:json:unreadable".into(), format!("{report_path:?} missing or not a JSON array"))),
+        }
+    }
+    if violations.is_empty() && spec.format == "text" {
+        // the text report prints one header per file that has diagnostics:
+        // `--- <path relative to the first workspace> [N errors, M warnings, K info, H hints]`
+        let text = std::fs::read_to_string(&text_path).unwrap_or_default();
+        let mut got: BTreeMap<String, Vec<String>> = BTreeMap::new();
+        for l in text.lines() {
+            if let Some(rest) = l.strip_prefix("--- ") {
+                let (path, counts) = match rest.rfind(" [") {
+                    Some(i) if rest.ends_with(']') => (rest[..i].trim().to_string(), rest[i + 2..rest.len() - 1].to_string()),
+                    _ => (rest.trim().to_string(), String::new()),
+                };
+                got.entry(path).or_default().push(counts);
+            }
+        }
+        counters.insert("text_report_headers".into(), got.values().map(|v| v.len() as u64).sum());
+        let mut expected: BTreeMap<String, String> = BTreeMap::new();
+        for (file, diags) in &want {
+            if diags.is_empty() {
+                continue;
+            }
+            let rel = Path::new(file).strip_prefix(&ws).map(|p| p.to_string_lossy().to_string()).unwrap_or_else(|_| file.clone());
+            let (mut e, mut w, mut i, mut h) = (0, 0, 0, 0);
+            for d in diags {
+                match d.severity {
+                    Some(lsp_types::DiagnosticSeverity::ERROR) => e += 1,
+                    Some(lsp_types::DiagnosticSeverity::WARNING) => w += 1,
+                    Some(lsp_types::DiagnosticSeverity::INFORMATION) => i += 1,
+                    Some(lsp_types::DiagnosticSeverity::HINT) => h += 1,
+                    _ => {}
+                }
+            }
+            let mut parts = Vec::new();
+            if e > 0 {
+                parts.push(format!("{e} error{}", if e > 1 { "s" } else { "" }));
+            }
+            if w > 0 {
+                parts.push(format!("{w} warning{}", if w > 1 { "s" } else { "" }));
+            }
+            if i > 0 {
+                parts.push(format!("{i} info"));
+            }
+            if h > 0 {
+                parts.push(format!("{h} hint{}", if h > 1 { "s" } else { "" }));
+            }
+            expected.insert(rel, parts.join(", "));
+        }
+        for (path, counts) in &expected {
+            match got.get(path) {
+                None => {
+                    violations.push(("C36:report:text:missing-file".into(), format!("{path}: reference has [{counts}], the text report has no header for it")));
+                    break;
+                }
+                Some(v) if v.len() > 1 => {
+                    violations.push(("C36:report:text:file-listed-twice".into(), format!("{path} has {} headers", v.len())));
+                    break;
+                }
+                Some(v) if v[0] != *counts => {
+                    violations.push(("C36:report:text:different-counts".into(), format!("{path}: report says [{}], reference [{counts}]", v[0])));
+                    break;
+                }
+                _ => {}
+            }
+        }
+        for path in got.keys() {
+            if !expected.contains_key(path) {
+                let kind = if path.contains("/lib/") { "library-file-reported" } else { "unknown-file-reported" };
+                violations.push((format!("C36:report:text:{kind}"), path.clone()));
+                break;
+            }
         }
     }
     if violations.is_empty() && spec.format == "sarif" {
@@ -328,12 +424,14 @@ fn run_case(spec: &CheckSpec, verbose: bool) -> CaseReport {
     }
 }
 
-fn redirect_stdout() -> i32 {
+fn redirect_stdout(to: &Path) -> i32 {
     use std::io::Write;
+    use std::os::unix::ffi::OsStrExt;
     let _ = std::io::stdout().flush();
+    let cpath = std::ffi::CString::new(to.as_os_str().as_bytes()).unwrap_or_else(|_| c"/dev/null".to_owned());
     unsafe {
         let saved = libc::dup(1);
-        let null = libc::open(c"/dev/null".as_ptr(), libc::O_WRONLY);
+        let null = libc::open(cpath.as_ptr(), libc::O_WRONLY | libc::O_CREAT | libc::O_TRUNC, 0o644);
         libc::dup2(null, 1);
         libc::close(null);
         saved
